@@ -81,10 +81,17 @@ def build(cfg):
     multi = bool(cfg.get("multi"))
     if multi:
         perm = {p["name"]: {k: p[k] for k in ("K", "xe0", "se", "xb", "w", "mc", "dc", "beta") if k in p} for p in ph}
-        th = FakeMultiTherm(mc=cfg.get("mc", 3e-21), se=cfg.get("se2", (0.0, 0.0)), per_phase=perm, faults=FaultPlan(cfg.get("faults")))
+        kw = dict(mc=cfg.get("mc", 3e-21), se=cfg.get("se2", (0.0, 0.0)))
+        if cfg.get("swap_elements"):
+            # the same alloy with the two solutes listed in the other order: every per-element parameter is reversed
+            rev = lambda v: tuple(reversed(v)) if isinstance(v, (tuple, list)) else v
+            defaults = dict(xe0=(0.004, 0.006), xb=(0.2, 0.1), w=(1.0, 0.5), dc=(1e-7, 5e-8))
+            kw.update({k: rev(v) for k, v in defaults.items()}, se=rev(kw["se"]))
+            perm = {n_: {k: (rev(v) if k in ("xe0", "se", "xb", "w", "dc") else v) for k, v in d_.items()} for n_, d_ in perm.items()}
+        th = FakeMultiTherm(per_phase=perm, faults=FaultPlan(cfg.get("faults")), **kw)
     else:
         th = FakeBinaryTherm(K=cfg.get("K", 1e5), xe0=cfg.get("xe0", 0.005), se=cfg.get("se", 0.0), T0=cfg.get("T0", 1000.0),
-                             xb=cfg.get("xb", 0.25), cb=cfg.get("cb", 1e-6), xlim=cfg.get("xlim", 0.3), D=cfg.get("D", 1e-17), per_phase=per,
+                             xb=cfg.get("xb", 0.25), cb=cfg.get("cb", 1e-6), xlim=cfg.get("xlim", 0.3), D=cfg.get("D", 1e-17), per_phase=per, phases=names,
                              faults=FaultPlan(cfg.get("faults")))
     els = ["B", "C"] if multi else ["B"]
     temp = cfg.get("temp", ("const", 1000))
@@ -101,6 +108,16 @@ def build(cfg):
         with contextlib.redirect_stdout(io.StringIO()):
             tp = TemperatureParameters(*targs)
         m = PrecipitateModel(phases=names, elements=els, temperatureParameters=tp)
+    elif cfg.get("temp_via") in ("constructor-stepwise", "constructor-reconfigured"):
+        # the parameter object is built empty (or with another schedule) and configured through its OWN setters before it is handed to the model
+        from kawin.precipitation.PrecipitationParameters import TemperatureParameters
+        import io, contextlib
+        with contextlib.redirect_stdout(io.StringIO()):
+            tp = TemperatureParameters() if cfg["temp_via"] == "constructor-stepwise" else TemperatureParameters([0, 1.0], [900, 950])
+            if temp[0] == "const": tp.setIsothermalTemperature(targs[0])
+            elif temp[0] == "array": tp.setTemperatureArray(targs[0], targs[1])
+            else: tp.setTemperatureFunction(targs[0])
+        m = PrecipitateModel(phases=names, elements=els, temperatureParameters=tp)
     elif cfg.get("temp_via") == "after-setup":
         # the schedule is supplied only AFTER setup(): until then the model holds the constant temperature the schedule starts at
         m = PrecipitateModel(phases=names, elements=els)
@@ -112,7 +129,10 @@ def build(cfg):
         with contextlib.redirect_stdout(io.StringIO()):
             m.setTemperature(*targs)
     m.setThermodynamics(th)
-    m.setInitialComposition(np.array(cfg.get("x0", [0.02, 0.015])) if multi else cfg.get("x0", 0.02))
+    x0m = list(cfg.get("x0", [0.02, 0.015])) if multi else None
+    if multi and cfg.get("swap_elements"):
+        x0m = x0m[::-1]
+    m.setInitialComposition(np.array(x0m) if multi else cfg.get("x0", 0.02))
     m.setVolumeAlpha(cfg.get("VmA", 1e-5), VolumeParameter.MOLAR_VOLUME, 4)
     for p in ph:
         m.setInterfacialEnergy(p.get("gamma", 0.05), p["name"])
@@ -135,6 +155,13 @@ def build(cfg):
             se_.setShape("ellipsoid")
             se_.setAspectRatioResolution(0.05, 5)
             m.setStrainEnergy(se_, p["name"], calculateAspectRatio=True)
+        if "strainShape" in p:    # shape dependent (ellipsoidal) strain energy with the aspect ratio GIVEN by the user ("shape" below): (eigenstrain, G, nu)
+            from kawin.precipitation import StrainEnergy
+            eig, G_, nu_ = p["strainShape"]
+            se_ = StrainEnergy()
+            se_.setEigenstrain(list(eig))
+            se_.setModuli(G=G_, nu=nu_)
+            m.setStrainEnergy(se_, p["name"], calculateAspectRatio=False)
         if "shape" in p:       # (kind, aspect ratio) -- a number, or ("linear", a0, slope per nm) for a size dependent aspect ratio
             kind, ar = p["shape"]
             if isinstance(ar, (list, tuple)):
@@ -378,6 +405,18 @@ def project(cfg, res):
                 q["clipok"] = bool(np.array_equal(want, rpsd[:nb - 1]))
             else:
                 q["removed01"], q["clipok"] = True, True
+            # the precipitate composition tabulated for every size class is the backend's answer for THIS phase at that class's Gibbs-Thomson
+            # energy (scripted binary closure: x_beta = xb(phase) + cb(phase) * g; unstable classes carry the sentinel / zero and are skipped)
+            q["xbtab"] = True
+            if E == 1 and hasattr(th, "_pp") and not cfg.get("multi") and s["xbeta"][p] is not None and len(s["xbeta"][p]) == len(s["bounds"][p]):
+                tb = np.asarray(s["xbeta"][p], dtype=float)[:, 0]
+                ta = np.asarray(s["xalpha"][p], dtype=float)[:, 0] if s.get("xalpha") is not None and s["xalpha"][p] is not None else None
+                gcl = np.asarray(m.particleGibbs(np.asarray(s["bounds"][p], dtype=float), m.phases[p]), dtype=float)
+                want_b = float(th._pp(m.phases[p], "xb")) + float(th._pp(m.phases[p], "cb")) * gcl
+                live = tb > 0
+                live[0] = False            # (as built: the first boundary carries the value of the second, _createLookupBinary evaluates PSDbounds[1:] only)
+                live[:int(s["rdf"][p]) + 1] = False        # (as built: classes reported unstable carry the value of the first stable class)
+                q["xbtab"] = bool(np.allclose(tb[live], want_b[live], rtol=1e-9, atol=0))
             # precipitate solute content: table in force during the step = snapshot at the end of the previous step
             tab = (prev["xbeta"][p] if prev is not None else None)
             fc = np.array(row["fconc"][p], dtype=float)
